@@ -177,6 +177,96 @@ theorem C06_aborts_at_deadline_pre_post_exact (limit : Option Nat) (respCap tcap
   intro en hen k hk hkey hdue hrem
   exact basePollNext_due_gone C16_server_flags hn fuel hi hq ⟨en, hen, rfl, rfl, k, hk, hkey, hdue, hrem⟩ h
 
+/-! ### in terms of deadlines -/
+
+/-- **C06 (c): not late, in terms of the deadline.**  After `BaseChannel::poll_next` has gone idle at clock `now` (clock
+below `2^35` ms), for every request still tracked and every execution it guards: *the millisecond tick of its deadline
+has not been reached* (`now < ceil_ms deadline`) — or its timer was armed when the deadline had already passed
+(`deadline < dueAt`: the request was read after its deadline, `dueAt` is that instant) less than a millisecond ago
+(`dueAt ≤ now < dueAt + 1 ms`; the timer fires at the next millisecond tick).  For every deadline, however far away and
+however often the timer was re-armed: the exact due time does not drift (`C06_timer_exact`). -/
+theorem C06_idle_deadline_tick (limit : Option Nat) (respCap tcap : Nat) (coupled : Bool) (ops : List SOp)
+    (hT : advSum ops < 2 ^ 35 * nsPerMs) (fuel : Nat)
+    (c : Sys) (hc : c = ops.foldl applyOp (initSys limit respCap tcap coupled))
+    (h : (basePollNext fuel c.s c.now).2 = .pending ∨ (basePollNext fuel c.s c.now).2 = .none) :
+    ∀ en ∈ (basePollNext fuel c.s c.now).1.inflight, ∀ ex ∈ (basePollNext fuel c.s c.now).1.execs, ex.rid = en.rid →
+      c.now < ceilMs ex.deadline * nsPerMs ∨
+      (ex.deadline < en.dueAt ∧ en.dueAt ≤ c.now ∧ c.now < en.dueAt + nsPerMs) := by
+  intro en hen ex hex hr
+  have hlt := C06_aborts_at_deadline limit respCap tcap coupled ops hT fuel c hc h en hen
+  subst hc
+  have hi := sinv_reach false limit respCap tcap coupled ops
+  have hi' := (sinv_closed false _).toLoopClosed.basePollNext fuel _ hi
+  obtain ⟨k, hk, hkey, -⟩ := hi'.t.fwd en hen
+  have hnd := hlt k hk hkey
+  have hok := hi'.t.dl en hen k hk hkey ex hex hr
+  obtain ⟨h3, h4⟩ := hok.tick_lt
+  have h2 := hok.hi
+  by_cases hle : en.dueAt ≤ ex.deadline
+  · left
+    exact Nat.lt_of_lt_of_le hnd (tick_le_ceil h4 hle)
+  · right
+    refine ⟨by omega, ?_, by omega⟩
+    have h1 := hok.lo
+    rcases Nat.le_total ex.deadline (ops.foldl applyOp (initSys limit respCap tcap coupled)).now with hdn | hdn
+    · rw [Nat.max_eq_right hdn] at h2; omega
+    · rw [Nat.max_eq_left hdn] at h2; omega
+
+/-- **… and for the request stream of a channel without limiter.**  After `Requests::poll_next` has ended `Pending`
+(or at the end of the stream) at clock `now`: every request still tracked is before the millisecond tick of its deadline,
+or was read after its deadline less than a millisecond ago. -/
+theorem C06_requests_idle_deadline_tick (respCap tcap : Nat) (coupled : Bool) (ops : List SOp)
+    (hT : advSum ops < 2 ^ 35 * nsPerMs) (fuel : Nat)
+    (c : Sys) (hc : c = ops.foldl applyOp (initSys none respCap tcap coupled))
+    (h : (requestsPollNext fuel c.s c.now).2 = .pending ∨ (requestsPollNext fuel c.s c.now).2 = .none) :
+    ∀ en ∈ (requestsPollNext fuel c.s c.now).1.inflight, ∀ ex ∈ (requestsPollNext fuel c.s c.now).1.execs,
+      ex.rid = en.rid →
+      c.now < ceilMs ex.deadline * nsPerMs ∨
+      (ex.deadline < en.dueAt ∧ en.dueAt ≤ c.now ∧ c.now < en.dueAt + nsPerMs) := by
+  intro en hen ex hex hr
+  have hlt := (C06_requests_poll_not_late respCap tcap coupled ops hT fuel c hc h).1 en hen
+  subst hc
+  have hi := sinv_reach false none respCap tcap coupled ops
+  have hi' := (sinv_closed false _).toLoopClosed.requestsPollNext fuel _ hi
+  obtain ⟨k, hk, hkey, -⟩ := hi'.t.fwd en hen
+  have hnd := hlt k hk hkey
+  have hok := hi'.t.dl en hen k hk hkey ex hex hr
+  obtain ⟨h3, h4⟩ := hok.tick_lt
+  have h2 := hok.hi
+  by_cases hle : en.dueAt ≤ ex.deadline
+  · left
+    exact Nat.lt_of_lt_of_le hnd (tick_le_ceil h4 hle)
+  · right
+    refine ⟨by omega, ?_, by omega⟩
+    have h1 := hok.lo
+    rcases Nat.le_total ex.deadline (ops.foldl applyOp (initSys none respCap tcap coupled)).now with hdn | hdn
+    · rw [Nat.max_eq_right hdn] at h2; omega
+    · rw [Nat.max_eq_left hdn] at h2; omega
+
+/-- **C06 (c): not late, in terms of the deadline (pre/post).**  If a request is tracked when `BaseChannel::poll_next`
+is called at a clock `now` at or after the millisecond tick of its deadline, and its timer was armed no later than the
+deadline (`dueAt ≤ deadline`: it was read before its deadline), then when the poll goes idle the request is no longer
+tracked and its handler has been aborted (unless a guard cancellation for its id was queued: the application had
+already dropped it). -/
+theorem C06_deadline_passed_gone (limit : Option Nat) (respCap tcap : Nat) (coupled : Bool) (ops : List SOp)
+    (hT : advSum ops < 2 ^ 35 * nsPerMs) (fuel : Nat)
+    (c : Sys) (hc : c = ops.foldl applyOp (initSys limit respCap tcap coupled))
+    (h : (basePollNext fuel c.s c.now).2 = .pending ∨ (basePollNext fuel c.s c.now).2 = .none)
+    (en : SEntry) (hen : en ∈ c.s.inflight) (ex : Exec) (hex : ex ∈ c.s.execs) (hr : ex.rid = en.rid)
+    (hpast : ceilMs ex.deadline * nsPerMs ≤ c.now) (harmed : en.dueAt ≤ ex.deadline) :
+    (∀ en' ∈ (basePollNext fuel c.s c.now).1.inflight, en'.id ≠ en.id) ∧
+    (en.id ∈ c.s.cancelQ ∨ ∀ ex' ∈ (basePollNext fuel c.s c.now).1.execs, ex'.rid = en.rid → ex'.aborted = true) := by
+  have hi := sinv_reach false limit respCap tcap coupled ops
+  rw [← hc] at hi
+  obtain ⟨k, hk, hkey, -⟩ := hi.t.fwd en hen
+  have hok := hi.t.dl en hen k hk hkey ex hex hr
+  obtain ⟨h3, h4⟩ := hok.tick_lt
+  have h2 := hok.hi
+  have hdn : ex.deadline ≤ c.now := Nat.le_trans (le_ceil_tick _) hpast
+  rw [Nat.max_eq_right hdn] at h2
+  exact C06_aborts_at_deadline_pre_post_exact limit respCap tcap coupled ops hT fuel c hc h en hen k hk hkey
+    (Nat.le_trans (tick_le_ceil h4 harmed) hpast) (by omega)
+
 /-- the request is read and yielded, the application drops it (its guard queues a cancellation), 5 ms pass -/
 def c06AbandonedOps : List SOp :=
   [SOp.injectReq 1 1000000 ⟨0, .given 0, false⟩ 0, .pollServer, .dropExec 0, .advance 5000000]
@@ -269,6 +359,45 @@ theorem C06_rearm_not_late_witness :
     -- before the poll at `D`: re-armed once, due exactly at the deadline, nothing left to arm
     ((c06RearmLateOps.take 6).foldl applyOp (initSys none 1 1 true)).s.inflight =
       [{ id := 1, timerKey := 1, rid := 0, remainder := 0, dueAt := clampNs + 10000000 }] := by
+  decide
+
+/-! ### beyond the bound on the clock -/
+
+/-- the clock (ms) from which a one-year timeout lands in the top wheel level's slot 0 of the *next* rotation -/
+def c06WheelLagStartMs : Nat := 2 ^ 36 + 2 - clampNs / nsPerMs
+
+/-- request 1 (deadline 64 ms) expires at 64 ms — the only time the wheel clock (`elapsed`) ever moves: it stays at 64;
+≈ 430 days later request 2 arrives with a deadline two years away (armed with the one-year clamp: tick `2^36 + 2` ms) and
+request 3 with a deadline 5 ms away; 5 ms later the channel is polled -/
+def c06WheelLagOps : List SOp :=
+  [.injectReq 1 (64 * nsPerMs) ⟨0, .given 0, false⟩ 0, .pollServer, .pollExec 0, .advance (64 * nsPerMs), .pollServer,
+   .pollExec 0, .advance ((c06WheelLagStartMs - 64) * nsPerMs),
+   .injectReq 2 (c06WheelLagStartMs * nsPerMs + 2 * clampNs) ⟨0, .given 0, false⟩ 0, .pollServer, .pollExec 1,
+   .injectReq 3 ((c06WheelLagStartMs + 5) * nsPerMs) ⟨0, .given 0, false⟩ 0, .pollServer, .pollExec 2,
+   .advance (5 * nsPerMs), .pollServer, .pollExec 2]
+
+set_option maxRecDepth 1000000 in
+/-- **The bound on the clock is not an artefact (tarpc-level consequence of the timer-wheel defect
+`DelayQ.C05_delayq_late_witness` and of the lag of the wheel clock, F9).**  A server channel whose timer wheel last
+advanced within its first 12 days (one early expiry; only an *expiring* timer moves `wheel.elapsed`) reads, after ≈ 430
+days (`2^36 ms − 1 year`), a request whose deadline is at least a year away.  The clamped timer (tick `2^36 + 2` ms) passes
+`DelayQueue::insert`'s range check and is filed in slot 0 of the top wheel level, one rotation ahead; from then on
+`Level::next_expiration` takes it for the wheel's next expiration: a request with a 5 ms deadline read next is *not*
+aborted when the channel is polled at its deadline (nothing is yielded, the `Sleep` is re-armed for `2^36 + 34·2^30` ms
+≈ 3.3 years; no panic, the channel is not poisoned), and `monC06` rejects the trace.  The same script shape on the client:
+`Client.C05_wheel_lag_witness`. -/
+theorem C06_wheel_lag_witness :
+    ¬ advSum c06WheelLagOps < 2 ^ 35 * nsPerMs ∧
+    (c06WheelLagOps.foldl applyOp (initSys none 2 4 true)).now = (c06WheelLagStartMs + 5) * nsPerMs ∧
+    (c06WheelLagOps.foldl applyOp (initSys none 2 4 true)).s.poisoned = false ∧
+    (c06WheelLagOps.foldl applyOp (initSys none 2 4 true)).s.inflight.map (fun e => (e.id, e.remainder, e.dueAt)) =
+      [(2, clampNs, (2 ^ 36 + 2) * nsPerMs), (3, 0, (c06WheelLagStartMs + 5) * nsPerMs)] ∧
+    (c06WheelLagOps.foldl applyOp (initSys none 2 4 true)).s.execs.map (fun e => (e.id, e.deadline, e.aborted, e.phase)) =
+      [(1, 64 * nsPerMs, true, EPhase.done),
+       (2, c06WheelLagStartMs * nsPerMs + 2 * clampNs, false, EPhase.running),
+       (3, (c06WheelLagStartMs + 5) * nsPerMs, false, EPhase.running)] ∧
+    (c06WheelLagOps.foldl applyOp (initSys none 2 4 true)).s.timers.nextFire = some ((2 ^ 36 + 34 * 2 ^ 30) * nsPerMs) ∧
+    (monC06 none (trace (initSys none 2 4 true) c06WheelLagOps)).ok = false := by
   decide
 
 end TarpcModel.Server
